@@ -111,7 +111,7 @@ def load_schema(xml, cache=False):
     return s
 
 
-def run_load(xml, lines, overrides=(), url=URL, cache_schema=False):
+def run_load(xml, lines, overrides=(), url=URL, cache_schema=False, final_newline=True):
     """-> ('ok', tree, handler) | ('reject', class name, exception) | ('crash', class name, exc)"""
     import ZConfig
     try:
@@ -119,7 +119,7 @@ def run_load(xml, lines, overrides=(), url=URL, cache_schema=False):
     except Exception as e:
         # a family schema that does not even load is reported as an outcome, not a harness crash
         return ('crash', 'schema:' + type(e).__name__, e)
-    f = common.make_file(lines)
+    f = common.make_file(lines, final_newline)
     try:
         cfg, handler = ZConfig.loadConfigFile(schema, f, url, overrides)
     except ZConfig.ConfigurationError as e:
@@ -298,11 +298,12 @@ class TextMixin:
         rec(files[0][0], 0)
         return flat
 
-    def real_load(self, xml, files, inp_concrete, overrides=(), schema=None):
+    def real_load(self, xml, files, inp_concrete, overrides=(), schema=None, final_newline=True):
         """-> ('ok', cfg, handler) | ('reject', cls, exc) | ('crash', cls, exc)"""
         store = {BASE + n: ls for n, ls in files}
         with common.env_scope(inp_concrete, {}), mem_resources(store):
-            return run_load(xml, files[0][1], overrides=overrides, url=BASE + files[0][0])
+            return run_load(xml, files[0][1], overrides=overrides, url=BASE + files[0][0],
+                            final_newline=final_newline)
 
 
 def describe_reject(e):
